@@ -14,6 +14,7 @@ package main
 
 import (
 	"context"
+	"errors"
 	"flag"
 	"fmt"
 	"log/slog"
@@ -27,6 +28,11 @@ import (
 	"example.com/scion-time/core/client"
 	"example.com/scion-time/core/timebase"
 	"example.com/scion-time/net/ntp"
+	"example.com/scion-time/net/udp"
+
+	"github.com/scionproto/scion/pkg/addr"
+	"github.com/scionproto/scion/pkg/snet"
+	spath "github.com/scionproto/scion/pkg/snet/path"
 
 	"verifharness/lib"
 )
@@ -47,6 +53,7 @@ const (
 	gapShort
 	gapOverride // the client's clock reads exactly 3 s + delta after its previous transmit stamp
 	gapReal3s   // wait in real time until the 3 s window has passed
+	gapFuture   // the client's clock reads a time after the NTP era rollover of 2036
 )
 
 type callScript struct {
@@ -59,6 +66,7 @@ type callScript struct {
 
 type histScript struct {
 	seed  uint64
+	scion bool
 	im    bool
 	calls []callScript
 }
@@ -186,6 +194,9 @@ func runWorker(a lib.Args, wi int) {
 		}
 		done++
 	}
+	if a.Replay == "" {
+		w.Case("c03.kstamps", "", lib.V(lib.I(nAttempts), lib.I(nFbTx), lib.I(nFbRx)), "")
+	}
 	if skipped > 0 {
 		fmt.Printf("NOTE worker %d: %d histories not recorded (peer and client disagree on the number of requests, or a scripted datagram was sent too close to a deadline)\n", wi, skipped)
 	}
@@ -233,7 +244,7 @@ func genDelay(r *lib.Rng) time.Duration {
 
 func genHistory(seed uint64) *histScript {
 	r := lib.NewRng(seed)
-	hs := &histScript{seed: seed, im: r.Intn(8) != 0}
+	hs := &histScript{seed: seed, im: r.Intn(8) != 0, scion: r.Intn(100) < 35}
 	base := genThetaBase(r)
 	mode := r.Intn(4) // 0 constant, 1 jitter, 2 steps between exchanges, 3 unrelated per exchange
 	cur := base
@@ -259,6 +270,7 @@ func genHistory(seed uint64) *histScript {
 	}
 	ncalls := 2 + r.Intn(6)
 	adversarial := r.Intn(3) // 0: calm, 1: some, 2: heavy
+	real3s := r.Intn(10) == 0    // at most one real 3 s pause, in few histories
 	for i := 0; i < ncalls; i++ {
 		cs := callScript{}
 		if i > 0 {
@@ -267,11 +279,17 @@ func genHistory(seed uint64) *histScript {
 				cs.gap = gapNone
 			case x < 55:
 				cs.gap = gapShort
+			case x < 60:
+				cs.gap = gapFuture
+				cs.delta = lib.Pick(r, int64(0), 1, 3, 86400, 365*86400, r.Range(0, 50*365*86400), r.Range(0, 100000))
 			case x < 98:
 				cs.gap = gapOverride
 				cs.delta = lib.Pick(r, int64(0), 0, 1, 1, -1, 2, -2, 1000, -1000, 1000000000, -1000000000, 999999999, -2999999999, r.Range(-3000000, 3000000))
 			default:
-				cs.gap = gapReal3s
+				cs.gap = gapNone
+				if real3s {
+					cs.gap, real3s = gapReal3s, false
+				}
 			}
 			cs.reset = r.Intn(12) == 0
 		}
@@ -293,6 +311,18 @@ func genHistory(seed uint64) *histScript {
 				act.back[j] = genDelay(r)
 			}
 			cs.acts = append(cs.acts, act)
+		}
+		if cs.gap == gapFuture {
+			// every stamp of the call must stay within 2^31 s of the client's clock reading
+			ahead := eraBoundary + cs.delta - time.Now().Unix()
+			for _, act := range cs.acts {
+				for _, th := range act.theta {
+					d := int64(th/time.Second) - ahead
+					if d < -(1<<31)+86400 || d > (1<<31)-86400 {
+						cs.gap = gapNone
+					}
+				}
+			}
 		}
 		hs.calls = append(hs.calls, cs)
 	}
@@ -360,7 +390,7 @@ func refNum(s string) int64 {
 		return 0
 	}
 	for i := 0; i < 2; i++ {
-		if s == thePeer.addr(i).String() {
+		if s == thePeer.addr(i).String() || s == theIA.String()+","+thePeer.addr(i).String() {
 			return int64(i + 1)
 		}
 	}
@@ -371,9 +401,57 @@ func prevStr(p prevSnap) string {
 	return lib.L(lib.I(refNum(p.ref)), lib.Bool(p.interleaved), t64s(p.cTx), t64s(p.cRx), t64s(p.sRx))
 }
 
+// the client under test: the real IPClient or the real SCIONClient
+type cli struct {
+	ip *client.IPClient
+	sc *client.SCIONClient
+}
+
+func (c *cli) obj() any {
+	if c.sc != nil {
+		return c.sc
+	}
+	return c.ip
+}
+func (c *cli) reset() {
+	if c.sc != nil {
+		c.sc.ResetInterleavedMode()
+	} else {
+		c.ip.ResetInterleavedMode()
+	}
+}
+
+const theIA = addr.IA(0x0001_ff00_0000_0110)
+
+func scionRemote(srv int) udp.UDPAddr { return udp.UDPAddr{IA: theIA, Host: thePeer.addr(srv)} }
+
+func (c *cli) measure(ctx context.Context, srv int) (time.Time, time.Duration, error) {
+	if c.sc == nil {
+		return client.MeasureClockOffsetIP(ctx, log0, c.ip, localAddr, thePeer.addr(srv))
+	}
+	la := udp.UDPAddr{IA: theIA, Host: &net.UDPAddr{IP: append(net.IP(nil), localAddr.IP...)}}
+	p := spath.Path{Src: theIA, Dst: theIA, DataplanePath: spath.Empty{}, NextHop: thePeer.addr(srv)}
+	ts, off, _ := client.MeasureClockOffsetSCION(ctx, log0, []*client.SCIONClient{c.sc}, la, scionRemote(srv), []snet.Path{p})
+	if ts.IsZero() {
+		return ts, off, errNoMeasurement
+	}
+	return ts, off, nil
+}
+
+var errNoMeasurement = errors.New("no measurement")
+
+// how often the client fell back from a kernel timestamp to a clock reading
+var nAttempts, nFbTx, nFbRx int64
+
 func runHistory(w *lib.Writer, hs *histScript) bool {
-	c := &client.IPClient{Log: log1, InterleavedMode: hs.im, Filter: recFilter{}}
-	rec.snap = func() prevSnap { return snapPrevOf(c) }
+	c := &cli{}
+	if hs.scion {
+		c.sc = &client.SCIONClient{Log: log1, InterleavedMode: hs.im, Filter: recFilter{}}
+	} else {
+		c.ip = &client.IPClient{Log: log1, InterleavedMode: hs.im, Filter: recFilter{}}
+	}
+	snapPrev := func() prevSnap { return snapPrevOf(c.obj()) }
+	rec.snap = snapPrev
 	thePeer.begin(hs)
 	rec.take()
 
@@ -386,7 +464,7 @@ func runHistory(w *lib.Writer, hs *histScript) bool {
 	ok := true
 
 	for i, cs := range hs.calls {
-		before := snapPrevOf(c)
+		before := snapPrev()
 		switch cs.gap {
 		case gapShort:
 			time.Sleep(time.Duration(1+i%4) * time.Millisecond)
@@ -400,8 +478,15 @@ func runHistory(w *lib.Writer, hs *histScript) bool {
 			}
 		}
 		if cs.reset {
-			c.ResetInterleavedMode()
+			c.reset()
 			tags["reset"] = true
+		}
+		if cs.gap == gapFuture {
+			v := time.Unix(eraBoundary+cs.delta, int64(i)*1000).UTC()
+			rec.mu.Lock()
+			rec.override = &v
+			rec.mu.Unlock()
+			tags["clock2036"] = true
 		}
 		if cs.gap == gapOverride && before.ref != "" {
 			v := ntp.TimeFromTime64(before.cTx, realNow()).Add(3*time.Second + time.Duration(cs.delta))
@@ -423,7 +508,7 @@ func runHistory(w *lib.Writer, hs *histScript) bool {
 		var ctx context.Context
 		var cancel context.CancelFunc = func() {}
 		var sctx *scriptCtx
-		if waits {
+		if waits || hs.scion {
 			sctx = &scriptCtx{}
 			sctx.wait = func() time.Duration {
 				d := longWait
@@ -439,14 +524,13 @@ func runHistory(w *lib.Writer, hs *histScript) bool {
 		} else {
 			ctx, cancel = context.WithTimeout(context.Background(), longWait)
 		}
-		remote := thePeer.addr(cs.srv)
-		ts, off, err := client.MeasureClockOffsetIP(ctx, log0, c, localAddr, remote)
+		ts, off, err := c.measure(ctx, cs.srv)
 		cancel()
 		rec.mu.Lock()
 		rec.override = nil
 		rec.mu.Unlock()
 		evs := rec.take()
-		after := snapPrevOf(c)
+		after := snapPrev()
 		atts, complete := parseEvents(evs)
 		if !complete {
 			ok = false
@@ -467,6 +551,13 @@ func runHistory(w *lib.Writer, hs *histScript) bool {
 			tags[actNames[al.act]] = true
 			if al.act != aNormal && al.act != aForceBasic {
 				lossSeen = true
+			}
+			nAttempts++
+			if at.fbTx {
+				nFbTx++
+			}
+			if at.fbRx {
+				nFbRx++
 			}
 			if at.fbTx || at.fbRx {
 				oracleOn = false
@@ -524,6 +615,9 @@ func runHistory(w *lib.Writer, hs *histScript) bool {
 				}
 			case at.fail != nil:
 				ec := errClass(at.fail.err)
+				if ec == 9 && hs.scion {
+					ec = 4 // a SCION packet the client could not decode
+				}
 				resStr = lib.L("0", lib.I(ec))
 				tags[fmt.Sprintf("err%d", ec)] = true
 			default:
@@ -543,6 +637,9 @@ func runHistory(w *lib.Writer, hs *histScript) bool {
 			tsn, offn = ns(ts), int64(off)
 		} else {
 			ec = errClass(err)
+			if hs.scion {
+				ec = 0
+			}
 		}
 		callsOut = append(callsOut, lib.L(lib.L(attOut...), lib.Bool(okCall), lib.I(tsn), lib.I(offn), lib.I(ec), prevStr(after)))
 	}
@@ -569,6 +666,11 @@ func runHistory(w *lib.Writer, hs *histScript) bool {
 	if racy {
 		return false
 	}
+	if hs.scion {
+		tags["scion"] = true
+	} else {
+		tags["ip"] = true
+	}
 	if hs.im {
 		tags["im"] = true
 	} else {
@@ -581,7 +683,7 @@ func runHistory(w *lib.Writer, hs *histScript) bool {
 	for t := range tags {
 		tl = append(tl, t)
 	}
-	args := lib.V("0", lib.Bool(hs.im), lib.L(callsIn...), lib.L(xds...), lib.Bool(oracleOn), lib.U(hs.seed))
+	args := lib.V(lib.Bool(hs.scion), lib.Bool(hs.im), lib.L(callsIn...), lib.L(xds...), lib.Bool(oracleOn), lib.U(hs.seed))
 	w.Case("c03.hist", strings.Join(sortStrings(tl), ","), args, lib.V(callsOut...))
 	return true
 }
